@@ -260,8 +260,8 @@ fn enumerate(md: &MessageDescriptor, msg: Option<&dyn MessageDyn>, prefix: &[Ste
                 let items: Vec<ReflectValueRef> = msg.map(|m| fd.get_repeated(m).into_iter().collect()).unwrap_or_default();
                 let n = items.len() as i64;
                 if msg.is_none() && matches!(rt, RuntimeType::Message(_)) {
-                    // a repeated message field of an ABSENT message: the code builds a 1-element template
-                    // array here (known finding); these queries go into a case of their own
+                    // a repeated message field of an ABSENT message (the shape of a repaired defect: the
+                    // scan-time array used to hold a template item); these queries form a case of their own
                     tmpl.push(Query::Len(p.clone(), 0)); tmpl.push(Query::Len(p.clone(), 1));
                     if let RuntimeType::Message(sub) = &rt {
                         if let Some(sf) = sub.fields().find(|f| !ignored(f) && matches!(f.runtime_field_type(), RuntimeFieldType::Singular(t) if !matches!(t, RuntimeType::Message(_)))) {
@@ -450,37 +450,15 @@ fn module_descriptor(module: &str) -> MessageDescriptor {
     res.module_output(module).expect("module output").descriptor_dyn()
 }
 
-fn main() { let args: Vec<String> = std::env::args().skip(1).collect(); std::process::exit(run(&args)); }
+// ------------------------------------------------------------------ driver
+#[derive(Clone)]
+enum Job { Builtin { module: String, path: std::path::PathBuf, supply: bool, absent_arrays: bool }, Synthetic(usize) }
 
-pub fn run(args: &[String]) -> i32 {
-    let seed = arg_u64(args, "--seed", 1);
-    let n = arg_u64(args, "--n", 40) as usize;
-    let max_q = arg_u64(args, "--max-queries", 220) as usize;
-    let out = arg_val(args, "--out").expect("--out");
-    let samples = arg_val(args, "--samples");
-    let prelude = "From Coq Require Import List NArith ZArith Bool.\nFrom YV Require Import Types.StructModel Types.StructCheck.\nImport ListNotations.\n";
-    let mut shards = Shards::new(Path::new(&out), prelude, 6);
-    let mut rng = Rng::new(seed);
-    let mut stats = Stats::default();
-    let mut total_q = 0usize;
-    let mut distinct = std::collections::HashSet::new();
-    let mut sample_json: Vec<String> = vec![];
-    let mut push = |label: &str, c: CaseOut, shards: &mut Shards, stats: &mut Stats| {
-        stats.inc(label);
-        stats.add("queries", c.queries as u64);
-        stats.add("queries_rejected_by_compiler", c.skipped as u64);
-        stats.add("verdict_true", c.true_verdicts as u64);
-        for k in &c.kinds { stats.inc(k); }
-        total_q += c.queries;
-        { use std::hash::{Hash, Hasher}; let mut h = std::collections::hash_map::DefaultHasher::new(); c.coq.hash(&mut h); distinct.insert(h.finish()); }
-        if sample_json.len() < 2 && c.json.len() < 20000 { sample_json.push(c.json.clone()); }
-        shards.push(c.coq, c.json);
-    };
-
-    // built-in modules on sample files: the module computes the output; a second run supplies the same output
+fn jobs(samples: &Option<String>, n: usize) -> Vec<Job> {
+    let mut v = vec![];
     if let Some(dir) = samples {
         let mut files: Vec<(String, std::path::PathBuf)> = vec![];
-        if let Ok(rd) = std::fs::read_dir(&dir) {
+        if let Ok(rd) = std::fs::read_dir(dir) {
             for m in rd.flatten() {
                 if let Ok(r2) = std::fs::read_dir(m.path()) {
                     for f in r2.flatten() { files.push((m.file_name().to_string_lossy().to_string(), f.path())); }
@@ -489,38 +467,151 @@ pub fn run(args: &[String]) -> i32 {
         }
         files.sort();
         for (module, path) in files {
-            let data = match std::fs::read(&path) { Ok(d) => d, Err(_) => continue };
-            let rules = match yara_x::compile(format!("import \"{}\" rule x {{ condition: true }}", module).as_str()) { Ok(r) => r, Err(e) => { eprintln!("c12: module {module}: {e}"); return 2; } };
-            let mut sc = yara_x::Scanner::new(&rules);
-            let res = match sc.scan(data.as_slice()) { Ok(r) => r, Err(e) => { eprintln!("c12: scan {path:?}: {e}"); continue; } };
-            let Some(outp) = res.module_output(&module) else { stats.inc("builtin:no-output"); continue; };
-            let msg = outp.clone_box();
-            if msg.compute_size_dyn() > 60_000 { stats.inc("builtin:output-too-large-skipped"); continue; }
-            for (supply, template) in [(false, false), (true, false), (false, true)] {
-                let label = if template { format!("template-array:{}", module) } else { format!("builtin:{}:{}", module, if supply { "supplied" } else { "computed" }) };
-                match run_case(&module, &*msg, &data, supply, &format!("{} {}", label, path.file_name().unwrap().to_string_lossy()), &mut rng, max_q, template) {
-                    Ok(Some(c)) => push(&label, c, &mut shards, &mut stats),
-                    Ok(None) => {}
-                    Err(e) => { eprintln!("c12: {label}: {e}"); return 2; }
-                }
+            for (supply, absent_arrays) in [(false, false), (true, false), (false, true)] {
+                v.push(Job::Builtin { module: module.clone(), path: path.clone(), supply, absent_arrays });
             }
         }
     }
+    for i in 0..n { v.push(Job::Synthetic(i)); }
+    v
+}
 
-    // synthetic messages for the test modules
+fn emit(line: String) {
+    use std::io::Write;
+    let out = std::io::stdout();
+    let mut l = out.lock();
+    let _ = l.write_all(line.as_bytes());
+    let _ = l.write_all(b"\n");
+    let _ = l.flush();
+}
+
+fn job_label(j: &Job) -> String {
+    match j {
+        Job::Builtin { module, path, supply, absent_arrays } => format!("{} {}",
+            if *absent_arrays { format!("absent-message-array:{}", module) } else { format!("builtin:{}:{}", module, if *supply { "supplied" } else { "computed" }) },
+            path.file_name().unwrap().to_string_lossy()),
+        Job::Synthetic(i) => format!("synthetic:{} #{}", if i % 4 == 3 { "test_proto3" } else { "test_proto2" }, i),
+    }
+}
+
+/// A panic inside a host function called from WASM aborts the process: the cases run in
+/// a child process (batches); the parent names the case that killed the child.
+fn child(args: &[String]) -> i32 {
+    let seed = arg_u64(args, "--seed", 1);
+    let n = arg_u64(args, "--n", 40) as usize;
+    let max_q = arg_u64(args, "--max-queries", 220) as usize;
+    let from = arg_u64(args, "--from", 0) as usize;
+    let samples = arg_val(args, "--samples");
+    unsafe { libc::alarm(3000); }
+    std::panic::set_hook(Box::new(|info| { emit(format!("P\tpanic: {}", info.to_string().replace(['\n', '\t'], " "))); }));
+    let all = jobs(&samples, n);
     let d2 = module_descriptor("test_proto2");
     let d3 = module_descriptor("test_proto3");
-    for i in 0..n {
-        let (module, md) = if i % 4 == 3 { ("test_proto3", &d3) } else { ("test_proto2", &d2) };
-        let msg = if i < 2 { md.new_instance() } else { gen_msg(md, &mut rng, 0) };
-        // proto2 required fields must be set (the scanner asserts is_initialized in debug builds)
-        let mut msg = msg;
-        for fd in md.fields() { if fd.is_required() && !fd.has_field(&*msg) { if let RuntimeFieldType::Singular(rt) = fd.runtime_field_type() { fd.set_singular_field(&mut *msg, gen_scalar(&rt, &mut rng)); } } }
-        let label = format!("synthetic:{}", module);
-        match run_case(module, &*msg, b"", true, &label, &mut rng, max_q, false) {
-            Ok(Some(c)) => push(&label, c, &mut shards, &mut stats),
-            Ok(None) => {}
+    for (idx, job) in all.iter().enumerate().skip(from) {
+        let mut rng = Rng::new(seed.wrapping_mul(0x9E37_79B9).wrapping_add(idx as u64 * 7919 + 1));
+        let label = job_label(job);
+        emit(format!("B\t{}\t{}", idx, label));
+        let res = match job {
+            Job::Builtin { module, path, supply, absent_arrays } => {
+                let data = match std::fs::read(path) { Ok(d) => d, Err(_) => { emit(format!("N\t{}\tunreadable", idx)); continue; } };
+                let rules = match yara_x::compile(format!("import \"{}\" rule x {{ condition: true }}", module).as_str()) { Ok(r) => r, Err(e) => { eprintln!("c12: module {module}: {e}"); return 2; } };
+                let mut sc = yara_x::Scanner::new(&rules);
+                let res = match sc.scan(data.as_slice()) { Ok(r) => r, Err(e) => { emit(format!("N\t{}\tscan error {}", idx, e.to_string().replace(['\n', '\t'], " "))); continue; } };
+                let Some(outp) = res.module_output(module) else { emit(format!("N\t{}\tbuiltin:no-output", idx)); continue; };
+                let msg = outp.clone_box();
+                if msg.compute_size_dyn() > 60_000 { emit(format!("N\t{}\tbuiltin:output-too-large-skipped", idx)); continue; }
+                run_case(module, &*msg, &data, *supply, &label, &mut rng, max_q, *absent_arrays)
+            }
+            Job::Synthetic(i) => {
+                let (module, md) = if i % 4 == 3 { ("test_proto3", &d3) } else { ("test_proto2", &d2) };
+                let mut msg = if *i < 2 { md.new_instance() } else { gen_msg(md, &mut rng, 0) };
+                // proto2 required fields must be set (the scanner asserts is_initialized in debug builds)
+                for fd in md.fields() { if fd.is_required() && !fd.has_field(&*msg) { if let RuntimeFieldType::Singular(rt) = fd.runtime_field_type() { fd.set_singular_field(&mut *msg, gen_scalar(&rt, &mut rng)); } } }
+                run_case(module, &*msg, b"", true, &label, &mut rng, max_q, false)
+            }
+        };
+        match res {
+            Ok(Some(c)) => {
+                let mut kc: std::collections::BTreeMap<&str, usize> = Default::default();
+                for k in &c.kinds { *kc.entry(k).or_default() += 1; }
+                let kinds = kc.iter().map(|(k, v)| format!("{}={}", k, v)).collect::<Vec<_>>().join(",");
+                emit(format!("E\t{}\t{}\t{}\t{}\t{}\t{}\t{}\t{}", idx, label.split(' ').next().unwrap(), c.queries, c.skipped, c.true_verdicts, kinds, c.coq, c.json));
+            }
+            Ok(None) => emit(format!("N\t{}\tnothing-to-ask", idx)),
             Err(e) => { eprintln!("c12: {label}: {e}"); return 2; }
+        }
+    }
+    0
+}
+
+fn main() {
+    let args: Vec<String> = std::env::args().skip(1).collect();
+    if arg_flag(&args, "--child") { std::process::exit(child(&args)); }
+    std::process::exit(run(&args));
+}
+
+pub fn run(args: &[String]) -> i32 {
+    use std::io::BufRead;
+    use std::process::{Command, Stdio};
+    let seed = arg_u64(args, "--seed", 1);
+    let n = arg_u64(args, "--n", 40) as usize;
+    let max_q = arg_u64(args, "--max-queries", 220);
+    let out = arg_val(args, "--out").expect("--out");
+    let samples = arg_val(args, "--samples");
+    let prelude = "From Coq Require Import List NArith ZArith Bool.\nFrom YV Require Import Types.StructModel Types.StructCheck.\nImport ListNotations.\n";
+    let mut shards = Shards::new(Path::new(&out), prelude, 6);
+    let mut stats = Stats::default();
+    let mut total_q = 0u64;
+    let mut distinct = std::collections::HashSet::new();
+    let mut sample_json: Vec<String> = vec![];
+    let total = jobs(&samples, n).len();
+    let mut next = 0usize;
+    while next < total {
+        let mut cmd = Command::new(std::env::current_exe().unwrap());
+        cmd.args(["--child", "--seed", &seed.to_string(), "--n", &n.to_string(), "--max-queries", &max_q.to_string(), "--from", &next.to_string()]);
+        if let Some(s) = &samples { cmd.args(["--samples", s]); }
+        let mut ch = match cmd.stdout(Stdio::piped()).stderr(Stdio::inherit()).spawn() { Ok(c) => c, Err(e) => { eprintln!("c12: cannot spawn child: {e}"); return 2; } };
+        let rd = std::io::BufReader::new(ch.stdout.take().unwrap());
+        let mut cur: Option<(usize, String)> = None;
+        let mut trace: Vec<String> = vec![];
+        let start = next;
+        for line in rd.lines() {
+            let line = match line { Ok(l) => l, Err(_) => break };
+            let f: Vec<&str> = line.splitn(9, '\t').collect();
+            match f[0] {
+                "B" if f.len() >= 3 => { cur = Some((f[1].parse().unwrap_or(usize::MAX), f[2].to_string())); trace.clear(); }
+                "P" => trace.push(f[1..].join(" ")),
+                "N" if f.len() >= 3 => { stats.inc(&format!("skipped:{}", f[2].split(' ').take(2).collect::<Vec<_>>().join(" "))); cur = None; next = f[1].parse::<usize>().unwrap_or(next) + 1; }
+                "E" if f.len() >= 9 => {
+                    let idx: usize = f[1].parse().unwrap_or(usize::MAX);
+                    stats.inc(f[2]);
+                    let q: u64 = f[3].parse().unwrap_or(0);
+                    stats.add("queries", q);
+                    stats.add("queries_rejected_by_compiler", f[4].parse().unwrap_or(0));
+                    stats.add("verdict_true", f[5].parse().unwrap_or(0));
+                    for kv in f[6].split(',') { if let Some((k, v)) = kv.split_once('=') { stats.add(k, v.parse().unwrap_or(0)); } }
+                    total_q += q;
+                    { use std::hash::{Hash, Hasher}; let mut h = std::collections::hash_map::DefaultHasher::new(); f[7].hash(&mut h); distinct.insert(h.finish()); }
+                    if sample_json.len() < 2 && f[8].len() < 20000 { sample_json.push(f[8].to_string()); }
+                    shards.push(f[7].to_string(), f[8].to_string());
+                    cur = None; next = idx + 1;
+                }
+                _ => {}
+            }
+        }
+        let status = ch.wait().map(|s| format!("{:?}", s)).unwrap_or_else(|e| e.to_string());
+        if let Some((idx, label)) = cur {
+            {
+                // the child died inside this case: a case on which model, specification and implementation disagree
+                stats.inc("CRASHED");
+                let json = format!("{{\"label\":{},\"index\":{},\"seed\":{},\"crashed\":true,\"exit\":{},\"trace\":[{}]}}", json_str(&label), idx, seed, json_str(&status),
+                    trace.iter().map(|t| json_str(t)).collect::<Vec<_>>().join(","));
+                shards.push("mkCase (TInt I64) (VInt 0) [(QDefined [], false)]".to_string(), json);
+                next = idx + 1;
+            }
+        } else if next == start {
+            eprintln!("c12: child made no progress from case {} (exit {})", next, status);
+            return 2;
         }
     }
     shards.flush();
